@@ -40,7 +40,10 @@ def c04_classify(c, i):
         for b in bl:
             if b and b[0].startswith("b") and "gate" in b:
                 out.append("back-inside-window"); break
+    elif c[0] == "c04.burst":
+        out.append("pool=" + c[1])
     elif c[0] == "c04.stream":
+        if any(t.startswith("U") for t in c[3:]): out.append("burst-of-charges")
         out.append("procs=" + c[1])
         for k in ("pop", "att", "leave", "det", "to", "park", "bwait", "stale"):
             if k in i: out.append("op:" + k)
